@@ -45,7 +45,7 @@ def vectors_stage(ctx, binary, v):
     ldir = ctx["ldir"]
     env = {"WOWM_OBJECTS": ldir + "/objects.ndjson", "WOWM_BLOCKS": ldir + "/blocks.ndjson",
            "WOWM_INDEX": ldir + "/index.json", "WOWM_NSHARDS": 1, "WOWM_SHARD": 0, "WOWM_NPROF": 1,
-           "WOWM_MAXLEN": 2, "WOWM_ONLY": "", "WOWM_DEEP": "0", "WOWM_FAULTS": "0", "WOWM_FAULT_EVERY": 1,
+           "WOWM_MAXLEN": 2, "WOWM_ONLY": "", "WOWM_DEEP": "0", "WOWM_FAULTS": "0", "WOWM_FAULT_EVERY": 1, "WOWM_FAULT_PHASE": 0,
            "WOWM_CONST": wire.EMPTY_LIST, "WOWM_VECTORS": path}
     res = C.run_tlc("TraceVectors", workers=1, timeout=600, env=env, name="c01-vectors", coverage=False)
     byid = {x["vid"]: x for x in vecs}
